@@ -207,6 +207,7 @@ func engineREGJ(w *World, tier string) *EngineResult {
 		r.Stats["type_name_constants_"+strings.ReplaceAll(short, "/", "_")] = nNames
 		r.floor("type_name_constants_"+strings.ReplaceAll(short, "/", "_"), 4)
 	}
+	regPrefix(w, r)
 	r.finish()
 	return r
 }
